@@ -20,6 +20,7 @@ def bin_num_doane(a):
     --------
     bin_width_doane: method used to compute the bin width
     """
+    a = np.asarray(a, dtype=np.float64)
     bad = np.isnan(a) | np.isinf(a)
     data = a[~bad]
     acc = bin_width_doane(a)
@@ -46,6 +47,7 @@ def bin_width_doane(a):
     It is highly recommended to use :func:`bin_width_percentile`
     instead.
     """
+    a = np.asarray(a, dtype=np.float64)
     bad = np.isnan(a) | np.isinf(a)
     data = a[~bad]
     n = data.size
@@ -71,6 +73,7 @@ def bin_width_percentile(a):
     we use just the top and bottom 10th percentiles with a fixed
     normalization.
     """
+    a = np.asarray(a, dtype=np.float64)
     bad = np.isnan(a) | np.isinf(a)
     data = a[~bad]
     start = np.percentile(data, 10)
@@ -100,9 +103,13 @@ def ignore_nan_inf(kde_method):
             bad_out = get_bad_vals(xout, yout)
             xo = xout[~bad_out]
             yo = yout[~bad_out]
-        # Filter events
-        ev_x = events_x[~bad_in]
-        ev_y = events_y[~bad_in]
+        # Filter events; compute in double precision (the arithmetic of
+        # integer-typed data would wrap around)
+        ev_x = np.asarray(events_x[~bad_in], dtype=np.float64)
+        ev_y = np.asarray(events_y[~bad_in], dtype=np.float64)
+        if xo is not None:
+            xo = np.asarray(xo, dtype=np.float64)
+            yo = np.asarray(yo, dtype=np.float64)
         density[~bad_out] = kde_method(ev_x, ev_y,
                                        xo, yo,
                                        *args, **kwargs)
